@@ -69,6 +69,30 @@ CHECKS.update({
    note="Within a listed (operator, signedness, width class) a new wrong value cannot be told from the known ones; that is the price of recording this defect family instead of repairing it."),
 })
 
+
+CHECKS.update({
+ "C10": dict(level="exploration", sec="4/C10",
+   technique="runtime monitor over real loopback GMW meshes: every party's Run outputs against the reference evaluation of the GMW-compiled circuit; dealt triples drawn identically from every party's pool and recombined word by word; quiescent-deadlock detector",
+   text="Exploration: 2-5 parties, PRNG join order and start delays; generated n-argument programs (multipliers, comparators, dividers, AND batches of odd sizes) and fixtures compiled for TargetGMW; triple sessions draw counts such as 1, 63, 64, 65, 4095-4097, 9000 and check (xor a)&(xor b) == xor c on every 64-bit word including round-up bits.",
+   note="All parties are goroutines of one process talking TCP over loopback; the race detector is deliberately not an oracle here."),
+ "C11": dict(level="exploration", sec="4/C11",
+   technique="runtime monitor: PRNG operation scripts through p2p.Conn over a fragmenting/delaying/lazy-copying tap (and p2p.Pipe), unique payloads, byte-counter comparison with the transport's own counts; Go race detector in the thorough tier; inactivity stall detector",
+   text="Exploration: scripts of 1-400 typed operations per direction in both directions at once, payload sizes around 0, 16, 64 KiB, 3x64 KiB, 1 MiB, 2.5 MiB, values straddling buffer ends, flushes at PRNG positions, read fragmentation from 1 byte to whole buffers; Close must deliver buffered data and the peer must then see EOF; Stats must equal the bytes the tap moved. Thorough (1200 scripts, 3.8 GB) runs under -race: a report with p2p frames is a violation.",
+   note="One goroutine per connection end, as in the protocol code; behaviour after transport errors is outside the statement."),
+ "C16": dict(level="fault_enumeration", sec="4/C16",
+   technique="fault injection in transit at chosen stream offsets of both directions, one OS process per faulty session under an address-space limit, outcome classification, result oracle against the reference evaluation",
+   text="Fault enumeration: six configurations (whole-circuit CO/COT/COT-malicious on 2-3-output circuits, streaming CO) with identical randomness per configuration; thorough injects a byte replacement at EVERY byte offset of both directions plus bit flips and 2-64 byte bursts (54k sessions), quick a PRNG subset (670). Oracle: garbler err == nil implies the correct result; errors, stalls (0.3 s quiescence), garbler panics and process-fatal out-of-memory aborts are allowed outcomes and counted.",
+   note="Random corruption, not structured rewrites by an active attacker (e.g. complementing one IKNP row flips a choice bit consistently); each faulty session is a child process because corrupted lengths make the code ask for 4-64 GiB."),
+ "C17": dict(level="exploration", sec="4/C17",
+   technique="Go race detector over a stress workload on one fresh shared circuit value, plus value oracles (reference evaluation, deep snapshots of live garblings, backing-array registry)",
+   text="Exploration: 48 (quick) / 400 (thorough) fresh circuits, each shared by 2-64 goroutines released by a barrier and running 30-300 operations from {Garble, Eval own, Compute, Release, double Release, hold-and-recheck}; every run is under -race with halt_on_error=0 and reports are filtered to circuit frames; distinct completion orders are counted as the interleavings observed.",
+   note="Race detection is dynamic: it reports races on executed paths only; repeated fresh circuits are what gives it reach."),
+ "C19": dict(level="exploration", sec="4/C19",
+   technique="runtime monitor over real loopback meshes with verif-tagged hook points in p2p/network.go that log event order and inject PRNG delays; exactly-once token exchange on every connection; quiescent-deadlock detector",
+   text="Exploration: 2-6 parties x 1-4 connections, leader first then PRNG join orders and start delays, 0-5 ms hook delays at five accept/dial points (notably between counting an accepted connection and registering its peer). After all Connect calls return: structure check and a unique token per (i->j, k) that must arrive on the same index at the other end and nowhere else. Found and repaired a setup hang; 944 distinct accept orders in 1500 meshes.",
+   note="Loopback TCP only; kernel behaviour varies in timing only."),
+})
+
 PENDING = {}
 def main():
     props=[json.loads(l) for l in open('/verif/properties.jsonl')]
@@ -109,6 +133,6 @@ def main():
     }
     json.dump(m, open('/verif/MANIFEST.json','w'), indent=1)
     print("checks:", len(checks), "not claimed:", len(na))
-HOOK_COMMITS = ['945a966']
+HOOK_COMMITS = ['945a966', 'ac723c0']
 if __name__ == "__main__":
     main()
